@@ -111,9 +111,7 @@ class BinningBase:
 
     def __getitem__(self, index: Union[slice, int]):
         if isinstance(index, slice):
-            new_binning = self.as_static()
-            new_binning._bins = new_binning.bins[index]
-            return new_binning
+            return self.as_static()[index]
         return self.bins[index]
 
     @staticmethod
@@ -413,8 +411,14 @@ class StaticBinning(BinningBase):
         )
 
     def __getitem__(self, item):
+        if isinstance(item, (int, np.integer)) and not isinstance(item, bool):
+            return self.bins[item]
+        bins = self.bins[item]
+        if bins.ndim != 2 or not is_rising(bins):
+            # e.g. a slice with a negative step or an unordered list of indices
+            raise ValueError("Bins must be in rising order.")
         copy = self.copy()
-        copy._bins = self._bins[item]
+        copy._bins = bins
         # TODO: check for the right_edge??
         return copy
 
